@@ -172,6 +172,10 @@ class Gate:
     def __init__(self, loop):
         self.fut = loop.create_future()
 
+    @property
+    def is_open(self):
+        return self.fut.done()
+
     def open(self, value=None):
         if not self.fut.done():
             self.fut.set_result(value)
